@@ -245,6 +245,13 @@ package dhcp
 // survives RELEASE / expiry and later hands the address to a second client ("never two unexpired
 // bindings on one address"). Release 3 is the critical section that retires the old key.
 //@   ensures s.acksTotal == old(s.acksTotal) + 1 && existingLease != nil && len(existingLease.CircuitID) > 0 && (len(lease.CircuitID) == 0 || hexstr(existingLease.CircuitID) != hexstr(lease.CircuitID)) ==> unlockedN(3, !(hexstr(existingLease.CircuitID) in s.leasesByCircuitID) || s.leasesByCircuitID[hexstr(existingLease.CircuitID)] != existingLease)
+// ... and so do the kernel fast-path entries of the old circuit (C16: "no fast-path cache entry (by
+// circuit-id) still answers for it" -- the end of the session only removes the entries of the
+// circuit-id the lease carries then); a binding that stays on its circuit keeps its entries
+//@   ghost relCacheCID mathint = 0
+//@   ghost relCacheCIDMap mathint = 0
+//@   ensures s.acksTotal == old(s.acksTotal) + 1 && existingLease != nil && len(existingLease.CircuitID) > 0 && (len(lease.CircuitID) == 0 || hexstr(existingLease.CircuitID) != hexstr(lease.CircuitID)) && old(s.loader) != nil ==> relCacheCIDMap == 1 && (old(s.loader.circuitIDSubscribers) != nil ==> relCacheCID == 1)
+//@   ensures existingLease == nil || len(existingLease.CircuitID) == 0 || (len(lease.CircuitID) > 0 && hexstr(existingLease.CircuitID) == hexstr(lease.CircuitID)) ==> relCacheCIDMap == 0 && relCacheCID == 0
 // accounting (C08), second half of the clause stated over the lease found: a new binding is started once
 //@   ensures s.acksTotal == old(s.acksTotal) + 1 && existingLease == nil && old(s.radiusClient) != nil ==> acctStarts == 1
 //@   ensures s.acksTotal == old(s.acksTotal) + 1 ==> (existingLease != nil && ipkey(existingLease.IP) == ipkey(requestedIP)) || poolOwner == 1 || old(s.httpAllocator != nil && s.httpAllocatorPool != "")
